@@ -147,6 +147,9 @@ class _ReaderAlign:
             "no-op-for-nonpositive": IMPLIES(a <= 0, new == o._bit_offset),
             # the least multiple of the alignment that is not below the old position
             "aligned": IMPLIES(a > 0, lambda: AND(new % a == 0, new >= o._bit_offset, new < o._bit_offset + a)),
+            # the two alignments that occur (A(T) is 1 or 8), stated without a symbolic divisor
+            "aligned-8": IMPLIES(a == 8, lambda: AND(new % 8 == 0, new >= o._bit_offset, new < o._bit_offset + 8)),
+            "aligned-1": IMPLIES(a == 1, new == o._bit_offset),
             "frame": READER_FRAME(s),
         }
 
@@ -573,6 +576,18 @@ def DES_POST2(s, t):
     }
 
 
+def ALIGNED_AT(t, off):
+    """the position is a multiple of the alignment of the type (A(T) is 1 or 8: only byte alignment is a constraint)"""
+    from .c02 import A as _A
+
+    return IMPLIES(_A(t) == 8, off % 8 == 0)
+
+
+def ALIGNMENT(s, t):
+    """the alignment discipline of the decoder: called at an aligned position, it stops at an aligned position"""
+    return {"aligned-end": IMPLIES(ALIGNED_AT(t, s.old.reader._bit_offset), lambda: ALIGNED_AT(t, s.reader._bit_offset))}
+
+
 def NESTED(t):
     """types whose decoding involves validation (anything but primitives and void)"""
     return NOT(ISINST(t, "PrimitiveType", "VoidType"))
@@ -600,10 +615,13 @@ class _DesElement:
 
     def pre(s):
         # model invariant: element / field types are never service types (ArrayType / CompositeType constructors)
-        return {"serializable": NOT(ISINST(s.element_type, "ServiceType"))}
+        return {"serializable": NOT(ISINST(s.element_type, "ServiceType")),
+                "aligned-start": ALIGNED_AT(s.element_type, s.reader._bit_offset)}
 
     def post(s):
-        return DES_POST2(s, s.element_type)
+        d = DES_POST2(s, s.element_type)
+        d.update(ALIGNMENT(s, s.element_type))
+        return d
 
 
 @contract(SD + "_deserialize_field_value", props=P7)
@@ -615,10 +633,14 @@ class _DesField:
 
     def pre(s):
         # model invariant: field types are never service types (CompositeType constructors, C02 `fields-serializable`)
-        return {"serializable": NOT(ISINST(s.field_type, "ServiceType"))}
+        return {"serializable": NOT(ISINST(s.field_type, "ServiceType")),
+                # alignment before each field (a dropped reader.align_to in the caller violates this)
+                "aligned-start": ALIGNED_AT(s.field_type, s.reader._bit_offset)}
 
     def post(s):
-        return DES_POST2(s, s.field_type)
+        d = DES_POST2(s, s.field_type)
+        d.update(ALIGNMENT(s, s.field_type))
+        return d
 
 
 def PREFIX_READ(o, t):
@@ -648,8 +670,12 @@ class _DesArray:
         "ValueError": lambda s: NOT(ISINST(s.schema, "FixedLengthArrayType", "VariableLengthArrayType")),
     }
 
+    def pre(s):
+        return {"aligned-start": ALIGNED_AT(s.schema, s.reader._bit_offset)}
+
     def post(s):
         d = DES_POST2(s, s.schema)
+        d.update(ALIGNMENT(s, s.schema))
         d["length-not-clamped"] = IMPLIES(ISINST(s.schema, "VariableLengthArrayType"),
                                           lambda: PREFIX_READ(s.old.reader, s.schema) <= s.schema._capacity)
         return d
@@ -659,7 +685,8 @@ class _DesArray:
 def _des_array_loop(s):
     o, r = s.old.reader, s.reader
     return {"frame": AND(SAME_BYTES(r._data, o._data), r._start_offset == o._start_offset, EQ(r._bit_limit, o._bit_limit)),
-            "forward": r._bit_offset >= o._bit_offset}
+            "forward": r._bit_offset >= o._bit_offset,
+            "element-aligned": ALIGNED_AT(s.schema._element_type, r._bit_offset)}
 
 
 @contract(SD + "_deserialize_composite", props=P7)
@@ -678,8 +705,13 @@ class _DesComposite:
         "ValueError": lambda s: NOT(ISINST(s.schema, "DelimitedType", "UnionType", "StructureType", "ServiceType")),
     }
 
+    def pre(s):
+        return {"aligned-start": ALIGNED_AT(s.schema, s.reader._bit_offset)}
+
     def post(s):
         d = DES_POST2(s, s.schema)
+        # final padding to the alignment of the composite (byte)
+        d["aligned-end"] = IMPLIES(NOT(ISINST(s.schema, "ServiceType")), s.reader._bit_offset % 8 == 0)
         d["tag-not-clamped"] = IMPLIES(ISINST(s.schema, "UnionType"),
                                        lambda: TAG_READ(s.old.reader, s.schema) < LEN(FIELDS(s.schema)))
         return d
@@ -1161,7 +1193,12 @@ def _bounded_codec(eng, tier, seed):
                 for _k in range(10 if tier == "quick" else 100):
                     stats["evolution_pairs"] += 1
                     v = _gen_value(rng, cw)
-                    back = deserialize(cr, serialize(cw, v))
+                    try:
+                        back = deserialize(cr, serialize(cw, v))
+                    except Exception as e:  # noqa
+                        bad("delimited-evolution", "%s: %s (writer revision %d, reader revision %d, container %s)"
+                            % (type(e).__name__, e, i, j, cn), {"value": repr(v)})
+                        continue
                     common = [n for n, _ in fw if n in dict(fr)]
 
                     def objs(x):
@@ -1212,9 +1249,9 @@ NOT_COVERED = [
     "_serialize_array / _serialize_composite / serialize / _default_value / _normalize_relaxed_value (dict handling of the "
     "serializer): no contract; covered only by the BOUNDED native stand-in (composite round trip, produced length in "
     "bit_length_set, defaults, delimiter header = inner byte length)",
-    "offsets of arrays / structures / unions as elements of L(T) (link to the C02 oracle), alignment before each field and "
-    "final padding of composites on the reader side: only `reader moves forward` is proved for non-delimited composites; "
-    "bounded stand-in only",
+    "offsets of arrays / structures / unions as elements of L(T) (link to the C02 oracle): not proved (bounded stand-in); "
+    "proved instead: the alignment discipline of the decoder (aligned start => aligned end, alignment before each field, "
+    "final padding) and `reader moves forward`",
     "values of deserialized arrays / composites (lists / dicts are opaque to the engine); the value level is proved for "
     "primitives only",
     "float codec (IEEE 754 packing through struct, NaN/inf/subnormals, float -> int rounding of numeric inputs): trusted",
@@ -1226,9 +1263,6 @@ NOT_COVERED_C07 = [
     "the clause `returns an object that is valid for T (re-serialisation is a fixed point)`: bounded stand-in only",
     "b and b followed by zero bytes decode alike at the level of whole objects: proved for every single read (bitsval over "
     "the zero-extended data) and for primitives; composite level by the bounded stand-in",
-    "a nested TypeError (a field / element / inner type that is a ServiceType) is allowed by the contracts of the "
-    "_deserialize_* functions: excluded by the model invariants of the type constructors (C02 `fields-serializable`, "
-    "`element-serializable`, `inner-not-service`), which are not connected to the copying `fields` accessor here",
     "float decoding (struct.unpack on an exactly-sized buffer is total): trusted; termination of the type recursion",
 ]
 NOT_COVERED_C14 = [
